@@ -44,8 +44,11 @@ def nest_content(nest, default, prefix=()):
 def uncomp(sk, *xs):
     dims = sk["dims"]
     n = box_size(dims)
-    nest, _ = nest_from(dims, xs)
     default = sk.get("default", 0)
+    if sk.get("fixed") is not None:
+        # part of the nest is a concrete pattern (keeps the path count of deep nests down): symbolic entries first, then the fixed ones
+        xs = list(xs[:n - len(sk["fixed"])]) + list(sk["fixed"])
+    nest, _ = nest_from(dims, xs)
     if sk.get("tensor"):
         t = Tensor.fromUncompressed(rank_ids_for(len(dims)), nest, default=default)
         f = t.getRoot()
@@ -176,6 +179,15 @@ def obligations(tier):
         for tensor in (False, True):
             nm = "x".join(map(str, dims))
             obs.append(Ob("uncomp/%s/%s" % (nm, "tensor" if tensor else "fiber"), "uncomp", dict(dims=dims, tensor=tensor), names("v", box_size(dims)), []))
+    if q:
+        # deeper nests with half of the entries fixed: an all-default depth-2 slice next to symbolic entries, and a mixed slice
+        for dims, fixed, dflt in (([2, 2, 2], [0, 0, 0, 0], 0), ([2, 2, 2], [5, 0, 0, 7], 0), ([2, 2, 2], [9, 9, 9, 9], 9), ([2, 1, 1, 2], [0, 0], 0), ([2, 1, 1, 2], [0, 3], 0)):
+            for tensor in (False, True):
+                nm = "x".join(map(str, dims)) + "/fixed" + "".join(map(str, fixed)) + ("/default%d" % dflt if dflt else "")
+                sk = dict(dims=dims, tensor=tensor, fixed=fixed)
+                if dflt:
+                    sk["default"] = dflt
+                obs.append(Ob("uncomp/%s/%s" % (nm, "tensor" if tensor else "fiber"), "uncomp", sk, names("v", box_size(dims) - len(fixed)), []))
     for dims in ([[2, 2]] if q else [[2, 2], [3], [2, 2, 2]]):
         nm = "x".join(map(str, dims))
         for tensor in (False, True):
